@@ -610,7 +610,9 @@ func (i *uinteger) BitWidth() BitWidth          { return i.t }
 func (i *uinteger) Validate(ctx ValidateCtx, path []string, s string) error {
 	var ui uint64
 	var e error
-	ui, e = strconv.ParseUint(s, 10, int(i.t))
+	// The lexical representation has an optional sign; for an unsigned
+	// type that can only be '+'.
+	ui, e = strconv.ParseUint(strings.TrimPrefix(s, "+"), 10, int(i.t))
 	if e != nil {
 		goto out
 	}
